@@ -19,7 +19,7 @@ import vlib
 # Proof modules in dependency order (compiled by coqc directly until they are listed in coq/_CoqProject):
 #   C27/SetModel.v C27/SetSpec.v C27/SetOrder.v C27/SetNum.v C27/SetCont.v C27/SetIvl.v C27/SetFin.v C27/SetInt.v
 #   C27/SetKey.v C27/SetWalk.v C27/SetProofs.v C27/SetTopo.v C27/SetSup.v C27/SetTheorems.v
-PROOF_MODULES = []
+PROOF_MODULES = ["C27/SetTheorems.vo"]
 OBLIGATIONS = ["C27/P_%s.v" % n for n in (
     "union_correct", "intersection_correct", "complement_correct", "complement_helper_correct",
     "free_union_correct", "free_intersection_correct", "contains_sound",
